@@ -101,7 +101,7 @@ def shared_containers(live):
 
 class C05(vlib.Check):
     id = "C05"
-    props_modules = ["E3fpVerif.Props.C05", "E3fpVerif.Props.C05Hist"]
+    props_modules = ["E3fpVerif.Props.C05", "E3fpVerif.Props.C05Hist", "E3fpVerif.Props.C05Cols"]
     gen_items = ["fprint_fold"]
     stateful_driver = True
     rule = ("seeded histories of 3-16 operations (add, lookup by index / name / absent name, subset, as_type, copy, fold, "
